@@ -857,7 +857,9 @@ def gen_comb_spec(rng, U_m, U_own):
             m['layer'] = gen_layer(rng, U_own, ps, True)
             m['layer']['n'], m['layer']['names'] = 0, []
         members.append(m)
-    nested = rng.choice([0, 0, 1, 2]) if k >= 2 else 0
+    nested = rng.choice([0, 1, 1, 2]) if k >= 2 else 0
+    if nested >= k and rng.random() < 0.7:
+        nested = k - 1          # leave at least one member after the spliced Combination
     return {'members': members, 'nested': min(nested, k)}
 
 
